@@ -106,6 +106,11 @@ def gen_data(rng, nr):
         X = base[nr.randint(len(base), size=n)]
     else:
         X = nr.randn(n, d) * 0.1 + rng.choice([0.5, 5.0, -3.0])
+    # the statement is about any data set: the clusters may live at any scale and offset (a unit of 1e3 or 1e-3)
+    scale = rng.choice([1.0, 1.0, 1.0, 10.0, 100.0, 1e3, 1e-3])
+    if scale != 1.0:
+        X = X * scale + rng.choice([0.0, 7.0 * scale])
+        kind = f"{kind}*{scale:g}"
     wk = rng.choice(["ones", "skewed", "integer", "extreme"])
     if wk == "ones":
         w = np.ones(n)
@@ -172,7 +177,8 @@ def check_gmm(run, tier, rng):
                 run.fail("gmm-fit-raises", f"replication fit raised {type(e).__name__}: {e}", **what)
         # one M-step on small dyadic data for the Coq model
         if len(mstep_cases) < (10 if tier == "quick" else 60) and n <= 13 and d <= 2:
-            Xq = np.round(X * 16) / 16
+            sc = float(2.0 ** np.round(np.log2(max(1e-300, np.abs(X).max()))))
+            Xq = np.round(X / sc * 16) / 16 * sc
             R = np.round(nr.dirichlet(np.ones(K), size=n) * 64) / 64
             sw = np.round(wn * 4096 + 1) / 4096
             weights, means, covs = g._m_step(Xq, R, sw)
